@@ -177,6 +177,25 @@ func Cases(v *eddsa.Variant, b Base, opt Options) []Case {
 		add("S-value", names[i], "", pub, b.Msg, cat(encR, vals[i]), b.Ctx)
 	}
 
+	// ---- A = R = identity (canonical), S = j*L: [S]B = O = R + [k]A for every j.
+	// j = 0 is a valid signature under the identity key; for j >= 1 only the
+	// range check on S stands between the input and acceptance.
+	{
+		idE := v.Enc(c.Identity())
+		full := new(big.Int).Lsh(big.NewInt(1), uint(8*v.B))
+		for _, j := range []int64{0, 1, 2, 3, 4, 5, 8, 15, 255, 1023} {
+			Sj := new(big.Int).Mul(big.NewInt(j), c.N)
+			if Sj.Cmp(full) >= 0 {
+				continue
+			}
+			lax := "S-range"
+			if j == 0 {
+				lax = ""
+			}
+			add("S-multiple-of-L-forged", fmt.Sprintf("S=%dL", j), lax, idE, b.Msg, cat(idE, fpx.ToLE(Sj, v.B)), b.Ctx)
+		}
+	}
+
 	// ---- non-canonical y in A and in R, honest other parts
 	names, encs := NonCanonicalY(v)
 	for i := range names {
